@@ -39,7 +39,8 @@ Inductive bad :=
 | BadFreeForeign (id : Z)   (* library freed a block that the caller allocated *)
 | BadFreeHanded (id : Z)    (* library freed a result it had handed over and that was not passed back *)
 | BadOverrun (id off : Z)   (* write at an offset outside the live block at that address *)
-| BadOverRead (id n : Z).   (* memcpy source range exceeds the block *)
+| BadOverRead (id n : Z)    (* memcpy source range exceeds the block *)
+| BadStalePair.             (* the result was stored through the (pointer, size) variables of an EARLIER call *)
 
 (* things outside the contract: misuse by the caller, and the two hazards *)
 Inductive note := NCallerFree | NCallerPass | NCallerSize | NCallerIndex | NRecycled | NZeroReuse.
@@ -175,6 +176,12 @@ Record dest := mkD {
   d_next_base : Z; d_next_off : Z;      (* pub.next_output_byte *)
   d_free : Z }.                         (* pub.free_in_buffer  *)
 
+(* The caller keeps an array of (pointer variable, size variable) records; w_buf / w_size are the
+   values of the CURRENT record, [p_list] holds the others.  [p_gen] counts the switches between
+   records, [p_bound] is the generation at which dest->outbuffer / dest->outsize were bound. *)
+Record pairs := mkP { p_list : list (Z * Z); p_ci : nat; p_gen : Z; p_bound : Z }.
+Definition pairs0 : pairs := mkP (repeat (0, 0) 8) 0 0 0.
+
 Record world := mkW {
   w_heap : heap;
   w_dest : option dest;       (* cinfo->dest (NULL before the first call) *)
@@ -182,37 +189,46 @@ Record world := mkW {
   w_held : list Z;            (* other pointers the caller remembers *)
   w_reusable : bool;          (* w_buf is the result of the previous, successful call and untouched since *)
   w_cur : Z;                  (* ghost: pointer passed in by the caller to the current call *)
-  w_ok : bool }.              (* no caller misuse and no hazard so far *)
+  w_ok : bool;                (* no caller misuse and no hazard so far *)
+  w_px : pairs }.             (* the caller's other (pointer, size) records and which one is current *)
 
-Definition world0 : world := mkW heap0 None 0 0 [] false 0 true.
+Definition world0 : world := mkW heap0 None 0 0 [] false 0 true pairs0.
 
 Definition set_heap (h : heap) (w : world) : world :=
-  mkW h (w_dest w) (w_buf w) (w_size w) (w_held w) (w_reusable w) (w_cur w) (w_ok w).
+  mkW h (w_dest w) (w_buf w) (w_size w) (w_held w) (w_reusable w) (w_cur w) (w_ok w) (w_px w).
 Definition set_dest (d : dest) (w : world) : world :=
-  mkW (w_heap w) (Some d) (w_buf w) (w_size w) (w_held w) (w_reusable w) (w_cur w) (w_ok w).
+  mkW (w_heap w) (Some d) (w_buf w) (w_size w) (w_held w) (w_reusable w) (w_cur w) (w_ok w) (w_px w).
 Definition set_out (p s : Z) (w : world) : world :=
-  mkW (w_heap w) (w_dest w) p s (w_held w) (w_reusable w) (w_cur w) (w_ok w).
+  mkW (w_heap w) (w_dest w) p s (w_held w) (w_reusable w) (w_cur w) (w_ok w) (w_px w).
 Definition set_held (l : list Z) (w : world) : world :=
-  mkW (w_heap w) (w_dest w) (w_buf w) (w_size w) l (w_reusable w) (w_cur w) (w_ok w).
+  mkW (w_heap w) (w_dest w) (w_buf w) (w_size w) l (w_reusable w) (w_cur w) (w_ok w) (w_px w).
 Definition set_reusable (r : bool) (w : world) : world :=
-  mkW (w_heap w) (w_dest w) (w_buf w) (w_size w) (w_held w) r (w_cur w) (w_ok w).
+  mkW (w_heap w) (w_dest w) (w_buf w) (w_size w) (w_held w) r (w_cur w) (w_ok w) (w_px w).
 Definition set_cur (c : Z) (w : world) : world :=
-  mkW (w_heap w) (w_dest w) (w_buf w) (w_size w) (w_held w) (w_reusable w) c (w_ok w).
+  mkW (w_heap w) (w_dest w) (w_buf w) (w_size w) (w_held w) (w_reusable w) c (w_ok w) (w_px w).
+Definition set_px (p : pairs) (w : world) : world :=
+  mkW (w_heap w) (w_dest w) (w_buf w) (w_size w) (w_held w) (w_reusable w) (w_cur w) (w_ok w) p.
+(* dest->outbuffer = outbuffer; dest->outsize = outsize; *)
+Definition bind_out (w : world) : world :=
+  set_px (mkP (p_list (w_px w)) (p_ci (w_px w)) (p_gen (w_px w)) (p_gen (w_px w))) w.
+Definition bound_now (w : world) : bool := p_bound (w_px w) =? p_gen (w_px w).
 Definition wlog (e : logent) (w : world) : world := set_heap (h_logadd e (w_heap w)) w.
 (* record something outside the contract *)
 Definition flag (n : note) (w : world) : world :=
-  mkW (h_logadd (LNote n) (w_heap w)) (w_dest w) (w_buf w) (w_size w) (w_held w) (w_reusable w) (w_cur w) false.
+  mkW (h_logadd (LNote n) (w_heap w)) (w_dest w) (w_buf w) (w_size w) (w_held w) (w_reusable w) (w_cur w) false (w_px w).
 Definition flag_if (c : bool) (n : note) (w : world) : world := if c then flag n w else w.
 
 Inductive mgr := TJ | IJG.
 Record cfg := mkCfg {
   cf_mgr : mgr;
   cf_clr : bool;     (* the `else dest->newbuffer = NULL` rule is present (fix of F2) *)
-  cf_zfix : bool }.  (* the allocation branch is skipped for a reused buffer with *outsize = 0 *)
-Definition cfg_tj : cfg := mkCfg TJ tj_clears_newbuffer tj_zero_size_keeps_reused.
-Definition cfg_tj_old : cfg := mkCfg TJ false tj_zero_size_keeps_reused.       (* before the F2 fix *)
-Definition cfg_tj_oldzero : cfg := mkCfg TJ tj_clears_newbuffer false.         (* before the zero-size fix *)
-Definition cfg_ijg : cfg := mkCfg IJG true true.
+  cf_zfix : bool;    (* the allocation branch is skipped for a reused buffer with *outsize = 0 *)
+  cf_rebind : bool }. (* outbuffer / outsize are bound on EVERY call, also for a reused buffer *)
+Definition cfg_tj : cfg := mkCfg TJ tj_clears_newbuffer tj_zero_size_keeps_reused tj_rebinds_out_always.
+Definition cfg_tj_old : cfg := mkCfg TJ false tj_zero_size_keeps_reused tj_rebinds_out_always.   (* before the F2 fix *)
+Definition cfg_tj_oldzero : cfg := mkCfg TJ tj_clears_newbuffer false tj_rebinds_out_always.     (* before the zero-size fix *)
+Definition cfg_tj_norebind : cfg := mkCfg TJ tj_clears_newbuffer tj_zero_size_keeps_reused false. (* seeded change C13-5 *)
+Definition cfg_ijg : cfg := mkCfg IJG true true ijg_rebinds_out_always.
 
 Definition out_buf_size (m : mgr) : Z := match m with TJ => tj_output_buf_size | IJG => ijg_output_buf_size end.
 Definition growth (m : mgr) : Z := match m with TJ => tj_growth | IJG => ijg_growth end.
@@ -222,7 +238,7 @@ Definition growth (m : mgr) : Z := match m with TJ => tj_growth | IJG => ijg_gro
 Definition dest_new : dest := mkD 0 0 0 false 0 0 0.
 
 (* jpeg_mem_dest_tj(cinfo, &w_buf, &w_size, alloc) -- returns None on normal return *)
-Definition mem_dest_tj (clr zfix : bool) (alloc : bool) (w : world) : world * option status :=
+Definition mem_dest_tj_body (clr zfix : bool) (alloc : bool) (w : world) : world * option status :=
   let d0 := match w_dest w with Some d => d | None => dest_new end in
   (* if (dest->buffer == *outbuffer && *outbuffer != NULL && alloc) reused = TRUE; else dest->newbuffer = NULL; *)
   let reused := (d_buffer d0 =? w_buf w) && negb (w_buf w =? 0) && alloc in
@@ -245,8 +261,15 @@ Definition mem_dest_tj (clr zfix : bool) (alloc : bool) (w : world) : world * op
     let h1 := h_upd (w_buf w) (set_data 0 []) (w_heap w) in
     (set_dest (mkD (w_buf w) bs nb1 alloc (w_buf w) 0 bs) (set_heap h1 w), None).
 
+(* dest->outbuffer = outbuffer; dest->outsize = outsize;  -- unconditional in the tree ([rebind]); the
+   alternative binds only when the buffer is not taken for a reused one *)
+Definition mem_dest_tj (clr zfix rebind : bool) (alloc : bool) (w : world) : world * option status :=
+  let d0 := match w_dest w with Some d => d | None => dest_new end in
+  let reused := (d_buffer d0 =? w_buf w) && negb (w_buf w =? 0) && alloc in
+  mem_dest_tj_body clr zfix alloc (if rebind || negb reused then bind_out w else w).
+
 (* jpeg_mem_dest(cinfo, &w_buf, &w_size): no alloc flag (d_alloc := TRUE), newbuffer always reset, size always taken *)
-Definition mem_dest_ijg (w : world) : world * option status :=
+Definition mem_dest_ijg_body (w : world) : world * option status :=
   if (w_buf w =? 0) || (w_size w =? 0) then
     let '(h1, a) := h_malloc (w_heap w) (out_buf_size IJG) Lib false in
     let w1 := set_out a (out_buf_size IJG) (set_heap h1 w) in
@@ -255,8 +278,11 @@ Definition mem_dest_ijg (w : world) : world * option status :=
     let h1 := h_upd (w_buf w) (set_data 0 []) (w_heap w) in
     (set_dest (mkD (w_buf w) (w_size w) 0 true (w_buf w) 0 (w_size w)) (set_heap h1 w), None).
 
+Definition mem_dest_ijg (rebind : bool) (w : world) : world * option status :=
+  mem_dest_ijg_body (if rebind then bind_out w else w).
+
 Definition mem_dest (c : cfg) (alloc : bool) (w : world) : world * option status :=
-  match cf_mgr c with TJ => mem_dest_tj (cf_clr c) (cf_zfix c) alloc w | IJG => mem_dest_ijg w end.
+  match cf_mgr c with TJ => mem_dest_tj (cf_clr c) (cf_zfix c) (cf_rebind c) alloc w | IJG => mem_dest_ijg (cf_rebind c) w end.
 
 (* empty_mem_output_buffer: Some st = ERREXIT *)
 Definition empty_output_buffer (m : mgr) (w : world) (d : dest) : world * dest * option status :=
@@ -274,7 +300,8 @@ Definition empty_output_buffer (m : mgr) (w : world) (d : dest) : world * dest *
 
 (* term_mem_destination *)
 Definition term_destination (w : world) (d : dest) : world :=
-  set_out (if d_alloc d then d_buffer d else w_buf w) (d_bufsize d - d_free d) w.
+  if bound_now w then set_out (if d_alloc d then d_buffer d else w_buf w) (d_bufsize d - d_free d) w
+  else wlog (LBad BadStalePair) w.     (* *dest->outbuffer / *dest->outsize are another record's variables *)
 
 (* ---- the producer *)
 Inductive pop := PByte (x : Z) | PChunk (xs : list Z) | PAbort.
@@ -385,7 +412,15 @@ Inductive hop :=
 | HTake (k : nat)                   (* buf = k-th remembered pointer *)
 | HFreeBuf                          (* tj3Free(buf); buf = NULL *)
 | HFreeHeld (k : nat)               (* tj3Free(k-th remembered pointer) *)
-| HCall (alloc : bool) (ops : list pop).
+| HCall (alloc : bool) (ops : list pop)
+| HSwitch (copy : bool) (k : nat).  (* continue with record k [after copying the current pointer and size into it] *)
+
+Fixpoint set_nth {A} (k : nat) (x : A) (l : list A) : list A :=
+  match l, k with
+  | [], _ => []
+  | _ :: t, O => x :: t
+  | y :: t, S k' => y :: set_nth k' x t
+  end.
 
 Fixpoint remove_nth {A} (k : nat) (l : list A) : list A :=
   match l, k with
@@ -443,6 +478,12 @@ Definition run_hop (c : cfg) (o : hop) (w : world) : world :=
       let w1 := flag_if (negb (pass_ok c alloc w)) NCallerPass w in
       let w2 := flag_if (zero_reuse c alloc w1) NZeroReuse w1 in
       run_call c alloc ops w2
+  | HSwitch copy k =>
+      let px := w_px w in
+      let saved := set_nth (p_ci px) (w_buf w, w_size w) (p_list px) in
+      let '(nb, ns) := if copy then (w_buf w, w_size w) else nth k saved (0, 0) in
+      let w1 := set_px (mkP saved k (p_gen px + 1) (p_bound px)) (set_out nb ns w) in
+      if copy then w1 else set_reusable false w1
   end.
 
 Definition run_hist (c : cfg) (hs : list hop) (w : world) : world := fold_left (fun w o => run_hop c o w) hs w.
@@ -460,6 +501,9 @@ Definition chunk_ok (o : pop) : bool :=
   match o with PChunk xs => Z.of_nat (length xs) <? huff_local_bufsize | PAbort => true | PByte _ => true end.
 Definition no_abort (o : pop) : bool := match o with PAbort => false | _ => true end.
 Definition hop_chunks_ok (o : hop) : bool := match o with HCall _ ops => forallb chunk_ok ops | _ => true end.
+
+(* the records other than the current one *)
+Definition other_pairs (w : world) : list (Z * Z) := p_list (w_px w).
 
 (* ---- worst-case size: turbojpeg.c tj3JPEGBufSize, jcicc.c jpeg_write_icc_profile *)
 Definition PAD (v p : Z) : Z := Z.land (v + p - 1) (Z.lnot (p - 1)).
